@@ -831,7 +831,8 @@ func filterPhone2numeric(in *Value, param *Value) (*Value, *Error) {
 
 func filterPluralize(in *Value, param *Value) (*Value, *Error) {
 	if in.IsNumber() {
-		// Works only on numbers
+		// Works only on numbers; singular for exactly one (1.5 is not one)
+		plural := in.Float() != 1
 		if param.Len() > 0 {
 			endings := strings.Split(param.String(), ",")
 			if len(endings) > 2 {
@@ -842,18 +843,18 @@ func filterPluralize(in *Value, param *Value) (*Value, *Error) {
 			}
 			if len(endings) == 1 {
 				// 1 argument
-				if in.Integer() != 1 {
+				if plural {
 					return AsValue(endings[0]), nil
 				}
 			} else {
-				if in.Integer() != 1 {
+				if plural {
 					// 2 arguments
 					return AsValue(endings[1]), nil
 				}
 				return AsValue(endings[0]), nil
 			}
 		} else {
-			if in.Integer() != 1 {
+			if plural {
 				// return default 's'
 				return AsValue("s"), nil
 			}
